@@ -2058,12 +2058,18 @@ int EGLPNUM_TYPENAME_ILLlib_chgsense (
 		case 'R':									/* Range constraint, we will set its upper bound
 																 once we call EGLPNUM_TYPENAME_QSchange_range, by default it 
 																 will be zero, i.e. an equation. */
+			if (qslp->rangeval == 0)
+			{		/* a problem with a ranged row carries range values (the writers rely on it) */
+				int r;
+				qslp->rangeval = EGLPNUM_TYPENAME_EGlpNumAllocArray (qslp->rowsize);
+				for (r = qslp->nrows; r--;)
+				{
+					EGLPNUM_TYPENAME_EGlpNumZero (qslp->rangeval[r]);
+				}
+			}
 			qslp->sense[rowlist[i]] = 'R';
 			EGLPNUM_TYPENAME_EGlpNumZero(qslp->lower[j]);
-			if (qslp->rangeval)
-				EGLPNUM_TYPENAME_EGlpNumCopy(qslp->upper[j], qslp->rangeval[rowlist[i]]);
-			else
-				EGLPNUM_TYPENAME_EGlpNumZero(qslp->upper[j]);
+			EGLPNUM_TYPENAME_EGlpNumCopy(qslp->upper[j], qslp->rangeval[rowlist[i]]);
 			EGLPNUM_TYPENAME_EGlpNumOne(A->matval[k]);
 			EGLPNUM_TYPENAME_EGlpNumSign(A->matval[k]);
 			break;
